@@ -29,6 +29,8 @@ const (
 	hdrRecodeProt
 	hdrTagPayload
 	hdrTreeProt
+	hdrSigPad
+	hdrDupLabel
 	hdrVariants
 )
 
@@ -205,6 +207,38 @@ func applyNetFault(tok []byte, op Op, donor []byte) ([]byte, bool) {
 				return out, false
 			}
 			return asm([]byte{0xd2}, cborBstr(np), unprot, payload, sig), true
+		case hdrSigPad:
+			// the signature followed by 1..4 padding bytes (zeros, or 0xff), length head adjusted
+			if !p.SigIsBstr {
+				return out, false
+			}
+			pad := byte(0)
+			if abs(op.C)%4 == 3 {
+				pad = 0xff
+			}
+			ns := append(append([]byte{}, p.Sig...), bytes.Repeat([]byte{pad}, 1+abs(op.B)%4)...)
+			return asm([]byte{0xd2}, prot, unprot, payload, cborBstr(ns)), true
+		case hdrDupLabel:
+			// the same header label in the protected AND the unprotected bucket, with byte-string,
+			// array or map values (kid, IV, x5chain style)
+			if len(p.Prot) == 0 {
+				return out, false
+			}
+			ph, err := readHead(p.Prot, 0)
+			if err != nil || ph.Major != 5 || ph.Info == 31 {
+				return out, false
+			}
+			label := []byte{0x04, 0x05, 0x18, 0x21}[abs(op.B)%4:][:1]
+			if abs(op.B)%4 == 2 {
+				label = []byte{0x18, 0x21}
+			}
+			val := [][]byte{{0x42, 0x01, 0x02}, {0x81, 0x41, 0x00}, {0xa1, 0x00, 0x40}, {0x40}}[abs(op.C)%4]
+			np := append([]byte{}, encodeHead(5, ph.Arg+1)...)
+			np = append(np, p.Prot[ph.HLen:]...)
+			np = append(np, label...)
+			np = append(np, val...)
+			nu := append(append([]byte{0xa1}, label...), val...)
+			return asm([]byte{0xd2}, cborBstr(np), nu, payload, sig), true
 		case hdrTagPayload:
 			// the same claims behind a tag the claims decoder skips (or not): the signed bytes differ
 			if !p.PayloadIsBstr {
@@ -622,7 +656,8 @@ func (n *jnode) all(out *[]*jnode) {
 }
 
 var jsonSubst = []string{"null", "[]", "{}", `""`, "0", "-1", "true", "1e400", "1.5", `"a"`, "[null]", "[{}]", "[[]]",
-	`{"a":null}`, "4294967296", "-2147483649", "65536", `"AA=="`, `"!!!"`, `[1,2]`, "18446744073709551616", "28672", "61695", "4351", "4352"}
+	`{"a":null}`, "4294967296", "-2147483649", "65536", `"AA=="`, `"!!!"`, `[1,2]`, "18446744073709551616", "28672", "61695", "4351", "4352",
+	"1e-1000000", "1e-400", "12288.0", "1.2288e4", "0.0000001e7", "-0", "1E+2"}
 
 // applyJSONFault mutates the member tree of doc at node a with variant b.
 func applyJSONFault(doc []byte, a, b int) ([]byte, bool) {
@@ -723,6 +758,26 @@ func applyProfileFault(msg []byte, variant int, isJSON bool) ([]byte, bool) {
 	if isJSON {
 		root, ok := parseJSONTree(msg)
 		if !ok || root.kind != 'o' {
+			return msg, false
+		}
+		if abs(variant)%12 >= 10 {
+			// the document now also carries the OTHER built-in profile's member, with that profile's name
+			for _, k := range root.keys {
+				other, val := "", ""
+				switch k {
+				case "psa-profile":
+					other, val = "eat-profile", "http://arm.com/psa/2.0.0"
+				case "eat-profile":
+					other, val = "psa-profile", "PSA_IOT_PROFILE_1"
+				}
+				if other != "" {
+					root.keys = append(root.keys, other)
+					root.kids = append(root.kids, &jnode{kind: 'v', raw: strconv.Quote(val)})
+					var sb bytes.Buffer
+					root.write(&sb)
+					return sb.Bytes(), true
+				}
+			}
 			return msg, false
 		}
 		for i, k := range root.keys {
